@@ -11,6 +11,8 @@ from .values import *
 from .mirparse import compile_block, parse_place, split_top, strip_generics, balanced
 from . import rustsrc
 
+XCHECK_N = int(os.environ.get('VERIF_XCHECK', '4'))          # cross-checked queries per worker process and exploration (0 = off)
+XCHECK_STEP = int(os.environ.get('VERIF_XCHECK_STEP', '97'))
 MAX_DEPTH = 400          # modelled call-stack limit (frames); exceeding it is a Panic('stack-overflow')
 SOLVER_TIMEOUT_MS = int(os.environ.get('MIRSYM_SOLVER_TIMEOUT_MS', '60000'))
 
@@ -180,6 +182,7 @@ class Interp:
         self.trait_models = {}       # (trait, method) -> handler
         self.allow = None            # UC: regex list of bodies that are executed, others havoc'd
         self.trace = []              # UC: (callee, args, result)
+        self._xdone = 0
         self.call_hooks = []         # fn(it, callee, args)
         self.adt_hooks = {}          # struct name -> fn(it, Agg) called when the struct is built by an aggregate rvalue (symbolic start states)
         self.stack = []
@@ -222,11 +225,33 @@ class Interp:
             self.solver.add(c)
         r = self.solver.check()
         m = self.solver.model() if r == z3.sat else None
+        smt = None
+        if XCHECK_N and r != z3.unknown and self._xdone < XCHECK_N and self.nq % XCHECK_STEP == 1:
+            smt = self.solver.to_smt2()
         self.solver.pop()
         self.solver_s += time.time() - t0
         if r == z3.unknown:
             raise Unsupported('solver returned unknown: ' + self.solver.reason_unknown())
+        if smt is not None:
+            self._cross_check(smt, r)
         return r, m
+
+    def _cross_check(self, smt, r):
+        """second opinion on a sampled query: the same assertions through cvc5 (SMT-LIB2 export); disagreement = inconclusive"""
+        import subprocess
+        self._xdone += 1
+        try:
+            p = subprocess.run(['cvc5', '--lang', 'smt2', '--tlimit=5000'], input='(set-logic ALL)\n' + smt, capture_output=True, text=True, timeout=20)
+            out = p.stdout.strip().split('\n')[0] if p.stdout.strip() else ''
+        except Exception:
+            out = ''
+        self.model_hits['__xcheck_total__'] = self.model_hits.get('__xcheck_total__', 0) + 1
+        if out not in ('sat', 'unsat'):
+            self.model_hits['__xcheck_noanswer__'] = self.model_hits.get('__xcheck_noanswer__', 0) + 1
+            return
+        if (out == 'sat') != (r == z3.sat):
+            raise Unsupported('solver disagreement on a cross-checked query: z3 says %s, cvc5 says %s' % (r, out))
+        self.model_hits['__xcheck_agree__'] = self.model_hits.get('__xcheck_agree__', 0) + 1
 
     def feasible(self, cond):
         r, m = self.check(cond)
